@@ -160,7 +160,7 @@ func RunReload(t *testing.T, comp string, create func(path, keyID, password stri
 		if os.Getenv("VERIF_TIER") != "quick" {
 			bases = SweepBases[1:]
 		} else {
-			step = 7
+			step = 11
 		}
 	}
 
@@ -200,7 +200,7 @@ func RunReload(t *testing.T, comp string, create func(path, keyID, password stri
 		pre := cmp.State().intern(in)
 		c.Oracle = Analyse(in, c.New.Bytes(), Password)
 
-		if c.Oracle.Cyclic && os.Getenv("C19_FX6") != "1" {
+		if c.Oracle.Cyclic {
 			continue // must not be run in-process (C19-F6); the ks stream has the witness in a child process
 		}
 
